@@ -506,10 +506,8 @@ def run_exec_property(prop, tier, rng, n_quick, n_thorough, gen_kw, weights, nop
     if diff:
         fl, ndiff = diff([cases[i] for i in good], rng)
         out.p_failures += fl
-    # (T)  (cases with the (P)-only statement try/finally have no term of Exec/Model.v)
-    pgood = list(good)
-    good = [i for i in good if not execlib.has_fin(cases[i])]
-    out.extra["cases_with_try_finally_P_only"] = len(pgood) - len(good)
+    # (T)
+    out.extra["cases_with_try_finally"] = sum(1 for i in good if execlib.has_fin(cases[i]))
     bad = execlib.tie(prop, [cases[i] for i in good], [res[i] for i in good])
     for b in bad[:5]:
         i = good[b]
@@ -530,7 +528,6 @@ def run_exec_property(prop, tier, rng, n_quick, n_thorough, gen_kw, weights, nop
     out.extra["theorem_hypotheses"] = "refn_ok (by-name reads of visible references), no formula re-entered while executing"
     out.evaluations = len(cases)
     out.traces_validated = len(good) - len(bad)
-    good = pgood
     out.distinct_nontrivial = len({json.dumps(c, sort_keys=True) for c, r in zip(cases, res) if nontrivial(c, r)})
     out.rule = rule
     c0 = cases[len(corpus)] if len(cases) > len(corpus) else cases[0]
@@ -547,8 +544,5 @@ def replay_exec(prop, data, oracles):
         print(k, op[:4] if op[0] != "setf" else op[:2], "->", ob["out"], "log", ob["log"], "tb", ob["tb"])
     for orc in oracles:
         print(orc.__name__, orc(case, res))
-    if execlib.has_fin(case):
-        print("(P)-only case (try/finally): no term of Exec/Model.v")
-    else:
-        print("tie mismatches:", execlib.tie(prop + "replay", [case], [res]))
+    print("tie mismatches:", execlib.tie(prop + "replay", [case], [res]))
     return 0
